@@ -22,6 +22,40 @@ PROPS = {
         "trusted": BT_TRUST,
         "assumptions": ["sequential clients; cell values far smaller than one gRPC message"],
     },
+    "C03": {
+        "lean": "Emu.Props.C03",
+        "diffs": [
+            {"cmd": "bt", "scenario": "c03x", "quick": 0, "thorough": 0, "args": {"all": []}, "exhaustive": True},
+            {"cmd": "bt", "scenario": "c03", "quick": 80, "thorough": 2000},
+            {"cmd": "bt", "scenario": "c03big", "quick": 10, "thorough": 200},
+        ],
+        "facts": [],
+        "trusted": BT_TRUST,
+        "assumptions": ["set bounds of a RowRange are non-empty (the code reads an empty bound as unbounded; the property is silent)",
+                        "SampleRowKeys' random choices are not predicted: the response is checked against its relation"],
+    },
+    "C05": {
+        "lean": "Emu.Props.C05",
+        "diffs": [
+            {"cmd": "bt", "scenario": "c05x", "quick": 0, "thorough": 0, "exhaustive": True},
+            {"cmd": "bt", "scenario": "c05", "quick": 80, "thorough": 2500},
+        ],
+        "facts": [],
+        "trusted": BT_TRUST + ["Go's sort.Sort is unstable above 12 elements; generated interleave duplicates per column stay below that"],
+        "assumptions": ["the row-sample filter's random draw is pinned through the verif hook"],
+    },
+    "C11": {
+        "lean": "Emu.Props.C11",
+        "diffs": [
+            {"cmd": "gcs", "scenario": "c11x", "quick": 0, "thorough": 0, "exhaustive": True},
+            {"cmd": "gcs", "scenario": "c11xmem", "quick": 0, "thorough": 0, "engines": "mem", "exhaustive": True},
+            {"cmd": "gcs", "scenario": "c11", "quick": 60, "thorough": 1500},
+            {"cmd": "gcs", "scenario": "c11mem", "quick": 40, "thorough": 1000, "engines": "mem"},
+        ],
+        "facts": [],
+        "trusted": GCS_TRUST,
+        "assumptions": ["object names are valid UTF-8 (the page token is a protobuf string)"],
+    },
     "C12": {
         "lean": "Emu.Props.C12",
         "diffs": [{"cmd": "bt", "scenario": "c12", "quick": 120, "thorough": 3000}],
